@@ -105,7 +105,12 @@ def denseCase : P String := do
   let asg := (List.range rows).foldl (fun d x =>
     match rowAssign s d x ((List.range cols).map fun y => (1000 * (x + 1) + y).toFloat) with
     | .ok d => d | .error _ => d) data
-  pure s!"dense size={s.size} addr={showNs addrs} ext={showFs ext} axpy={showNs touched} asg={showFs asg.toList}"
+  -- Max / Min act on every storage slot (`for (auto& y : data_)`)
+  let thr := (s.size / 2).toFloat + 0.5
+  let val := fun (i : Nat) => ((i * 7919) % (s.size + 1) + 1).toFloat
+  let mx := (List.range s.size).filter fun i => cmax floatOps (val i) thr != val i
+  let mn := (List.range s.size).filter fun i => cmin floatOps (val i) thr != val i
+  pure s!"dense size={s.size} addr={showNs addrs} ext={showFs ext} axpy={showNs touched} asg={showFs asg.toList} max={showNs mx} min={showNs mn}"
 
 /-! ### forcing -/
 def forcingCase : P String := do
@@ -348,11 +353,11 @@ def namedMechP : P (List (Process Float)) := do
     pure { reactants := rs, products := ps }
 
 def buildCase : P String := do
-  let hasSys ← boolT; let hasRx ← boolT; let ignoreUnused ← boolT; let reorder ← boolT
+  let hasSys ← boolT; let hasRx ← nat; let ignoreUnused ← boolT; let reorder ← boolT
   let sys ← systemP
   let mech ← namedMechP
   let inp : BuildInput Float := { system := if hasSys then some sys else none,
-                                  reactions := if hasRx then some mech else none, ignoreUnused, reorder }
+                                  reactions := if hasRx == 0 then none else if hasRx == 1 then some mech else some [], ignoreUnused, reorder }
   match build (1.0e-3 : Float) (fun ps => (List.range ps.length).map fun i => s!"r{i}") inp with
   | .error e => pure (errStr e)
   | .ok b =>
@@ -566,6 +571,44 @@ def luFlatCase : P String := do
   let x := solveFlat L blocks n la.fw la.bw la.Lp.nnz la.Up.nnz Lo Up (toFlatDense L blocks n b)
   pure s!"luflat L={showFs Lo.toList} U={showFs Up.toList} x={showFs x.toList}"
 
+/-- separate-L/U variants with L and U stored in their own (possibly different) orders -/
+def LinAlg.buildMixed (kind : LUKind) (jac : Pattern) (cscL cscU : Bool) : LinAlg :=
+  let az := fun r c => jac.zero? r c
+  let (l, u) := match kind with
+    | .mozart => mozartSymbolic jac.n az
+    | _ => doolittleSymbolic jac.n az
+  let Lp := Pattern.mk' jac.n cscL jac.L l
+  let Up := Pattern.mk' jac.n cscU jac.L u
+  let (fw, bw) := solverRows Lp Up
+  match kind with
+  | .mozart => { kind, A := jac, Lp, Up, mInit := mozartInit jac Lp Up, mRows := mozartRows jac Lp Up, fw, bw }
+  | _ => { kind := .doolittle, A := jac, Lp, Up, dRows := doolittleRows jac Lp Up, fw, bw }
+
+def luMixCase : P String := do
+  let kind := luKindOf (← nat)
+  let n ← nat; let csc ← boolT; let cscL ← boolT; let cscU ← boolT; let L ← nat; let blocks ← nat; let ne ← nat
+  let es ← pairsP ne
+  let set := setOfList es
+  let jac := Pattern.mk' n csc L set
+  let la := LinAlg.buildMixed kind jac cscL cscU
+  let avals ← flts (blocks * set.length)
+  let garbage ← flt
+  let b ← flts (blocks * n)
+  let lset := Pattern.rcSet la.Lp; let uset := Pattern.rcSet la.Up
+  let cells := (List.range blocks).map fun c =>
+    let av := (avals.drop (c * set.length)).take set.length
+    let bv := ((b.drop (c * n)).take n).toArray
+    let A := toRankOrder la.A set av 0.0
+    let L0 : Array Float := Array.replicate la.Lp.nnz garbage
+    let U0 : Array Float := Array.replicate la.Up.nnz garbage
+    let (Lo, Up) := match la.kind with
+      | .mozart => mozartCell la.mInit la.mRows A (L0, U0)
+      | _ => doolittleCell la.dRows A (L0, U0)
+    let x := solveCell la.fw la.bw Lo Up bv
+    (fromRankOrder la.Lp lset Lo, fromRankOrder la.Up uset Up, x.toList)
+  let lv := cells.flatMap (·.1); let uv := cells.flatMap (·.2.1); let xv := cells.flatMap (·.2.2)
+  pure s!"lu Lp={showPs lset} Up={showPs uset} {showStreams la} fw={showSub la.fw} bw={showSub la.bw} L={showFs lv} U={showFs uv} x={showFs xv}"
+
 /-- `NormalizedError` and `IsConverged` on given matrices -/
 def normCase : P String := do
   let L ← nat; let ncell ← nat; let ns ← nat
@@ -591,6 +634,7 @@ def runLine2 (line : String) : String :=
     | "norm" => (normCase.run rest).1
     | "jacobianflat" => (jacobianFlatCase.run rest).1
     | "luflat" => (luFlatCase.run rest).1
+    | "lumix" => (luMixCase.run rest).1
     | _ => runLine line
 
 end Micm.Driver
